@@ -43,7 +43,7 @@ def make_env(case):
     return env, hfiles, call, texts
 
 
-def build_run_records(cases, tag, check_origins=True, limit_ms=20000, extra_calls=None):
+def build_run_records(cases, tag, check_origins=True, limit_ms=20000, extra_calls=None, hooks=None):
     """cases: abstract cases (dicts with id, files, top, ...). Executes them and returns
     (records, harness_cases, raw_results)."""
     hcases = []
@@ -51,6 +51,9 @@ def build_run_records(cases, tag, check_origins=True, limit_ms=20000, extra_call
     for c in cases:
         env, hfiles, call, texts = make_env(c)
         envs.append((env, texts))
+        if hooks:
+            call = dict(call)
+            call["hooks"] = sorted(set((call.get("hooks") or []) + list(hooks)))
         calls = [call]
         if extra_calls:
             calls += extra_calls(c, env, call, texts)
